@@ -135,7 +135,8 @@ func (s *Sched) PointFor(tid int, label string, enabled func() bool) {
 
 // Who names the logical thread the calling goroutine works for.
 func (s *Sched) Who() int {
-	if s.Resolve != nil {
+	// until time has passed for the first time, only the thread released last can be running
+	if s.Resolve != nil && s.timePassed() {
 		if t := s.Resolve(); t >= 0 {
 			return t
 		}
@@ -143,6 +144,12 @@ func (s *Sched) Who() int {
 	s.mu.Lock()
 	defer s.mu.Unlock()
 	return s.current
+}
+
+func (s *Sched) timePassed() bool {
+	s.mu.Lock()
+	defer s.mu.Unlock()
+	return s.advances+s.forced > 0
 }
 
 // AdvanceID is the pseudo thread id of the "let time pass" alternative.
